@@ -37,8 +37,8 @@ ASSUMPTIONS = [
 ]
 SHARDS = {"quick": 16, "thorough": 16}
 MINIMUMS = {
-    "quick": {"distinct_nontrivial": 10000, "values_as_declared_default": 2000, "assignments": 30000, "conforming_accepted": 10000, "ill_typed_rejected": 8000, "removal_cases": 2000, "removal:list": 100, "removal:dict": 100, "removal:direct": 200, "removal:pre-task": 50, "removal:init-task": 100, "removal_normal_mode": 500},
-    "thorough": {"distinct_nontrivial": 120000, "assignments": 300000, "conforming_accepted": 90000, "ill_typed_rejected": 70000, "removal_cases": 20000, "removal:list": 1500, "removal:dict": 1500, "removal:direct": 3000, "removal_normal_mode": 5000},
+    "quick": {"distinct_nontrivial": 10000, "values_as_declared_default": 2000, "assignments": 30000, "conforming_accepted": 10000, "ill_typed_rejected": 8000, "removal_cases": 2000, "removal:list": 100, "removal:dict": 100, "removal:direct": 200, "removal:pre-task": 50, "removal:init-task": 100, "removal_normal_mode": 500, "removal_second_attempt": 1500},
+    "thorough": {"distinct_nontrivial": 120000, "assignments": 300000, "conforming_accepted": 90000, "ill_typed_rejected": 70000, "removal_cases": 20000, "removal:list": 1500, "removal:dict": 1500, "removal:direct": 3000, "removal_normal_mode": 5000, "removal_second_attempt": 15000},
 }
 N = {"quick": (48000, 4000), "thorough": (1200000, 100000)}
 TIMEOUT = {"quick": 2400, "thorough": 14400}
@@ -456,6 +456,17 @@ def removal_sites(recipe):
     return sites, sh
 
 
+def second_attempt(r2, root, inits, b):
+    """History after a rejected submission: a new task object of the same class is built from the *same* parameter
+    objects (nothing was repaired) and submitted (the rejected object itself cannot be submitted twice)."""
+    bld = build.Builder()
+    new = root + "#2"
+    for s in r2["steps"]:
+        if s[0] in ("new", "set", "meta", "tag", "pre") and s[1] == root:
+            bld.step([s[0], new] + list(s[2:]), b)
+    bld.step(["submit", new, inits], b)
+
+
 def part2(ctx, rng, n, normal_every=3):
     from xvengine import engb, planrun
 
@@ -504,6 +515,18 @@ def part2(ctx, rng, n, normal_every=3):
                         ctx.violation("submit-accepts-missing-required:" + kind, f"submit accepted a task whose {sh.nodes[nid].cls if nid in sh.nodes else 'Init'} node {nid} ({kind}) lacks required '{name}' (normal mode)", w)
                     if after != before or links_after != links_before:
                         ctx.violation("job-registered-before-rejection:" + kind, f"scheduler registry/unfinished {before} -> {after}, links {len(links_before)} -> {len(links_after)} although node {nid} ({kind}) lacks '{name}' (raised: {raised!r})", w)
+                    if raised is not None and after == before:
+                        # history: a new task object built from the same (unrepaired) parameter objects is submitted
+                        ctx.count("removal_second_attempt")
+                        raised2 = None
+                        try:
+                            second_attempt(r2, root, inits, b)
+                        except Exception as e:
+                            raised2 = e
+                        xp._xv_engine.quiesce()
+                        after2 = (len(xp.scheduler.jobs), xp.unfinishedJobs)
+                        if raised2 is None or after2 != before:
+                            ctx.violation("second-attempt-accepts-missing-required:" + kind, f"the second submission of a task whose node {nid} ({kind}) lacks required '{name}' was accepted / registered (first: {raised!r}, second: {raised2!r}, registry {before} -> {after2}) (normal mode)", w)
             else:
                 b = build.Builder().run(r2)
                 raised = None
@@ -513,6 +536,15 @@ def part2(ctx, rng, n, normal_every=3):
                     raised = e
                 if raised is None:
                     ctx.violation("submit-accepts-missing-required:" + kind, f"dry-run submit accepted a task whose node {nid} ({kind}) lacks required '{name}'", w)
+                else:
+                    ctx.count("removal_second_attempt")
+                    raised2 = None
+                    try:
+                        second_attempt(r2, root, inits, b)
+                    except Exception as e:
+                        raised2 = e
+                    if raised2 is None:
+                        ctx.violation("second-attempt-accepts-missing-required:" + kind, f"the second dry-run submission of a task whose node {nid} ({kind}) lacks required '{name}' was accepted (first: {raised!r})", w)
         except RecursionError:
             pass
         except Exception as e:
